@@ -211,7 +211,7 @@ def r_est(rep, ctx, m, t):
                       % (gs, m["ty"], want, m["p"] if m["ty"] != "DOPRI5" else 5), span(t["hk"].accept_if))
 
 
-def fsal_check(rep, ctx, m, flag, init_flag="Continue", solout_present=True, accept="then", rule="R-AFF-FSAL", as_note=False):
+def fsal_check(rep, ctx, m, flag, init_flag="Continue", solout_present=True, accept="then", rule="R-AFF-FSAL", as_note=False, per_latch=False):
     fn = solve_def(m)
     an = ctx.analysis(m, flag, init_flag, solout_present, accept)
     tag = "%s/%s/%s/%s" % (flag, init_flag, "solout" if solout_present else "nosolout", accept)
@@ -227,19 +227,45 @@ def fsal_check(rep, ctx, m, flag, init_flag="Continue", solout_present=True, acc
     if not hk.latch:
         rep.inconc(rule, key, "no latch state on this path")
         return
-    L = hk.latch[0] if len(hk.latch) == 1 else sx.join_states(hk.latch)
-    xl = L.get(hk.xkey)
-    yl = L.get(hk.ykey)
-    ylv = yl.get(0) if yl is not None and hasattr(yl, "get") else None
+    # a slot that is never read on this path (its head value F0 flows nowhere) carries no invariant
+    live = False
+    probe = lambda a: a == "F0"
+    for ev in sx.trace:
+        v = None
+        if ev["kind"] in ("store", "assign"):
+            v = ev.get("value")
+        elif ev["kind"] == "reduce":
+            v = ev.get("term")
+        elif ev["kind"] == "copy":
+            v = ev.get("value")
+        if isinstance(v, Poly) and reaches(v, probe):
+            live = True
+            break
+    if not live:
+        for s_ in hk.stages:
+            if isinstance(s_.get("arg"), Poly) and reaches(s_["arg"], probe):
+                live = True
+    if not live:
+        for d_ in hk.divs:
+            if reaches(d_["num"], probe) or reaches(d_["den"], probe):
+                live = True
+    if not live:
+        rep.ok(rule, key, "derivative buffer %s is not read in the loop on this path (no invariant needed)" % [sx.names.get(k, k) for k in hk.slots], nontrivial=False)
+        return
+    latches = hk.latch if per_latch else [hk.latch[0] if len(hk.latch) == 1 else sx.join_states(hk.latch)]
     bad = []
-    for k in hk.slots:
-        v = L.get(k)
-        a = v.get(0).single_atom() if hasattr(v, "get") and isinstance(v.get(0), Poly) else None
-        st = next((s for s in hk.stages if s["name"] == a), None) if a else None
-        if st is None:
-            bad.append("%s holds %r" % (sx.names.get(k, k), v.get(0) if hasattr(v, "get") else v))
-        elif st["T"] != xl or st["arg"] != ylv:
-            bad.append("%s holds f(%r, %r) but the next step starts at (%r, %r)" % (sx.names.get(k, k), st["T"], st["arg"], xl, ylv))
+    for L in latches:
+        xl = L.get(hk.xkey)
+        yl = L.get(hk.ykey)
+        ylv = yl.get(0) if yl is not None and hasattr(yl, "get") else None
+        for k in hk.slots:
+            v = L.get(k)
+            a = v.get(0).single_atom() if hasattr(v, "get") and isinstance(v.get(0), Poly) else None
+            st = next((s for s in hk.stages if s["name"] == a), None) if a else None
+            if st is None:
+                bad.append("%s holds %r" % (sx.names.get(k, k), v.get(0) if hasattr(v, "get") else v))
+            elif st["T"] != xl or st["arg"] != ylv:
+                bad.append("%s holds f(%r, %r) but the next step starts at (%r, %r)" % (sx.names.get(k, k), st["T"], st["arg"], xl, ylv))
     if bad:
         msg = "derivative slot is not f(x, y) at the next loop head on path %s: %s" % (tag, "; ".join(bad))
         if as_note:
